@@ -203,7 +203,7 @@ def malformed_cases(draw, tier):
                                  "flat_multiple", "narrow_dtype_overflow", "pandas_float", "pandas_int", "pandas_bool",
                                  "series_float", "timedelta64", "datetime64", "matrix", "masked_none_hidden", "masked_hides_invalid",
                                  "longlong", "fortran_order", "strided_view", "read_only",
-                                 "zero_rows_float", "zero_rows_wrong_width", "zero_rows_object_frame"]))
+                                 "zero_rows_float", "zero_rows_wrong_width", "zero_rows_object_frame", "tuple_of_row_arrays"]))
     case = {"scorer": name, "n": n, "p": p, "kind": kind}
     rows = [sorted(draw(st.lists(st.integers(-2, n + 2), min_size=k, max_size=k))) for _ in range(draw(st.integers(1, 5)))]
     case["rows"] = rows
@@ -324,6 +324,12 @@ def check_malformed(case):
     elif kind == "list":
         rows = valid_pool[:3]
         arg = [list(map(int, r)) for r in rows]
+        expect_error = False
+    elif kind == "tuple_of_row_arrays":
+        # a tuple holding one 1-D array per cut - as many cuts as a cut has entries (a square block): rows, not columns
+        k_ = len(valid_pool[0])
+        rows = [valid_pool[(i * 3) % len(valid_pool)] for i in range(k_)]
+        arg = tuple(np.asarray(r, dtype=np.int64) for r in rows)
         expect_error = False
     elif kind == "row_vector":
         rows = [valid_pool[len(valid_pool) // 2]]
@@ -603,7 +609,67 @@ def check_long_narrow(case):
     return {"nontrivial": True, "classes": [f"scorer={name}", f"n={n}"]}
 
 
+def big_batch_cells(tier):
+    for name in ("L2Cost", "GaussianVarCost", "L2Saving", "CUSUM", "LocalAnomalyScore(L2Cost)"):
+        for where in ("last", "after_65536", "first", "none"):
+            yield {"scorer": name, "where": where}
+
+
+def check_big_batch(case):
+    """One evaluate call with ~80000 rows (all admissible intervals of a 400-sample series, as np.triu_indices gives them, or all
+    splits of the whole series repeated): with one invalid row in it - the last row, a row after position 65536, the first row -
+    the call must raise ValueError; without, every row must equal the same cut evaluated on its own small batch."""
+    name, where = case["scorer"], case["where"]
+    k = width(name)
+    n = 400
+    rng = np.random.Generator(np.random.PCG64(97 + len(name)))
+    X = rng.standard_normal((n, 1))
+    scorer = build_scorer(name).fit(X)
+    ms = min_size(name, 1)
+    a, b = np.triu_indices(n + 1, k=ms)
+    if k == 2:
+        cuts = np.column_stack((a, b))
+    elif k == 3:
+        keep = b - a >= 2 * ms
+        cuts = np.column_stack((a[keep], (a[keep] + b[keep]) // 2, b[keep]))
+    else:
+        keep = b - a >= 2 * ms + 2
+        cuts = np.column_stack((a[keep], a[keep] + 1, b[keep] - 1, b[keep]))
+        cuts = cuts[cuts[:, 2] - cuts[:, 1] >= ms]
+    cuts = cuts.astype(np.int64)
+    m = len(cuts)
+    if m <= 70_000:
+        raise RuntimeError(f"harness: batch too small ({m})")
+    if where != "none":
+        bad = {2: [300, 200], 3: [100, 200, 200], 4: [10, 50, 40, 90]}[k]  # in range, but not increasing
+        pos = {"last": m - 1, "after_65536": 65536 + 11, "first": 0}[where]
+        cuts = cuts.copy()
+        cuts[pos] = bad
+        outcome, out, err = evaluate_outcome(scorer, cuts)
+        if outcome != "ValueError":
+            raise Violation("an invalid row inside a batch of ~80000 cuts was evaluated silently (or raised another error)", scorer=name,
+                            position=int(pos), rows=int(m), row=bad, outcome=outcome)
+        return {"nontrivial": True, "classes": [f"scorer={name}", f"invalid_row={where}"]}
+    outcome, out, err = evaluate_outcome(scorer, cuts)
+    if outcome != "value":
+        raise Violation("a valid batch of ~80000 cuts was rejected", scorer=name, rows=int(m), outcome=outcome, error=err[:200])
+    out = np.asarray(out, dtype=float)
+    probe = np.unique(np.r_[0, 1, 8191, 8192, 16383, 16384, 65535, 65536, 65537, m - 1, np.arange(0, m, 997)])
+    alone = np.asarray(scorer.evaluate(cuts[probe]), dtype=float)
+    if out.shape[0] != m or not np.allclose(out[probe], alone, rtol=1e-9, atol=1e-9):
+        j = int(np.argmax(np.abs(out[probe] - alone).sum(axis=1)))
+        raise Violation("a cut inside a batch of ~80000 cuts is scored differently from the same cut in a small batch", scorer=name,
+                        cut=cuts[probe[j]].tolist(), in_big_batch=out[probe[j]].tolist(), alone=alone[j].tolist())
+    return {"nontrivial": True, "classes": [f"scorer={name}", "valid_big_batch"]}
+
+
 FACETS = [
+    Facet(name="big_batches", kind="enumerate", enumerate=big_batch_cells, check=check_big_batch, exhaustive=True, time_limit=300,
+          rule=("five scorers, ONE evaluate call with 70000-80000 rows (all admissible intervals of a 400-sample series): with one in-range but "
+                "non-increasing row as the last row / after position 65536 / as the first row the call must raise ValueError; the valid batch must be "
+                "accepted and ~100 probed rows (incl. positions 8191-8192, 16383-16384, 65535-65537, the last) must equal the same cuts evaluated in a small batch; "
+                "every cell non-trivial"),
+          shards_quick=10, shards_thorough=10),
     Facet(name="long_series_cut_dtypes", kind="enumerate", enumerate=long_narrow_cells, check=check_long_narrow, exhaustive=True, time_limit=300,
           rule=("six scorers on a seeded series of 100000 samples (thorough: 60000 .. 10^6): valid cuts over tens of thousands of samples given as "
                 "int32 / uint32 / uint64 / long long must give the value of the int64 cuts, which must match the definition; every cell non-trivial"),
